@@ -297,6 +297,11 @@ func (r *Run) exec(g *G, fr *Frame, in ssa.Instruction) (yield bool) {
 		r.set(fr, x, Ptr(p))
 		fr.pc++
 	case *ssa.Store:
+		if r.localDepth > 0 {
+			if _, isG := x.Addr.(*ssa.Global); isG {
+				engineFail("summarised callee stores to a global (%s)", fr.fn)
+			}
+		}
 		p := r.get(fr, x.Addr).(Ptr)
 		if p == nil {
 			r.runtimePanic(g, "invalid memory address or nil pointer dereference")
@@ -337,6 +342,9 @@ func (r *Run) exec(g *G, fr *Frame, in ssa.Instruction) (yield bool) {
 	case *ssa.Lookup:
 		return r.execLookup(g, fr, x)
 	case *ssa.MapUpdate:
+		if r.localDepth > 0 {
+			engineFail("summarised callee updates a map (%s)", fr.fn)
+		}
 		m := r.get(fr, x.Map).(*MapObj)
 		if m == nil {
 			r.runtimePanic(g, "assignment to entry in nil map")
@@ -421,6 +429,9 @@ func (r *Run) exec(g *G, fr *Frame, in ssa.Instruction) (yield bool) {
 	case *ssa.Call:
 		return r.execCall(g, fr, x)
 	case *ssa.Go:
+		if r.localDepth > 0 {
+			engineFail("summarised callee starts a goroutine (%s)", fr.fn)
+		}
 		fnv, args := r.prepareCall(g, fr, &x.Call)
 		if g.panicVal != nil {
 			return false
@@ -1448,6 +1459,10 @@ func (r *Run) invokeOn(g *G, fr *Frame, fnv Value, args []Value, retSlot int, is
 				return false
 			}
 			engineFail("external function without model: %s (called at %s)", fn.String(), r.curPosPrev(g))
+		}
+		if r.eng.summarise[fn.String()] && !r.noSummaries {
+			r.summarisedCall(g, fr, fn, args, f.env, retSlot)
+			return false
 		}
 		nf := r.pushFrame(g, fn, args, f.env, retSlot)
 		nf.isDefer = isDefer
